@@ -449,3 +449,22 @@ Proof.
   intros P M M'. destruct (QualifyObjects_order_independent _ _ _ _ P M M') as [_ PQ].
   unfold QualifyReferences_ref. rewrite !(byRef_has_perm _ _ _ _ PQ). reflexivity.
 Qed.
+
+(** ** ambiguity left by pass 3 *)
+Lemma qualify_unambiguous_refuted :
+  exists specs, NoDup specs /\ ambiguousb (QualifyObjects_go specs) = true.
+Proof.
+  exists [QO 1 10; QO 2 1; QO 2 2; QO 3 10]. split; [|vm_compute; reflexivity].
+  repeat constructor; simpl; intuition discriminate.
+Qed.
+
+(* what pass 3 does guarantee: no unqualified object is labelled like the schema of an object that
+   pass 2 qualified (same label in another schema) *)
+Lemma qualify_unambiguous_except specs o o' :
+  qualifier_spec specs o = None -> In o' specs -> conflictb specs o' = true -> q_label o <> q_schema o'.
+Proof.
+  unfold qualifier_spec. intros H Hi Hc E.
+  assert (U : schema_used specs (q_label o) = true).
+  { apply schema_used_iff. exists o'. auto. }
+  rewrite U, orb_true_r in H. discriminate.
+Qed.
